@@ -79,6 +79,8 @@ def deep_docs(fmt):
         elif fmt == "cborl":
             docs.append([0x81] * d + [0x01])
             docs.append([0x9f] * d + [0x01] + [0xff] * d)
+            docs.append([0x82, 0x00] * d + [0x01])                          # every level announces two elements
+            docs.append([0xa2, 0x61, 0x61, 0x01, 0x61, 0x62] * d + [0xf6])  # ... two members
             docs.append([0xa1, 0x61, 0x61] * d + [0xf6])
             docs.append(([0xbf, 0x61, 0x6b, 0x82, 0x00]) * (d // 2) + [0x20] + [0xff] * (d // 2))
         else:
@@ -153,6 +155,13 @@ def sweep_docs(fmt, quick):
             if L < 256:
                 docs.append(list(b"[$S#U\x02" + (ulen(L) + plain) * 2))
                 docs.append(list(b"[$U#" + ulen(L) + plain))
+    if fmt == "cborl":
+        # indefinite-length containers at every position of definite-length ones (and vice versa), with siblings after them
+        inners = [b"\x9f\xff", b"\x9f\x01\xff", b"\xbf\xff", b"\xbf\x61\x6b\x01\xff", b"\x9f\x9f\xff\xff", b"\x80", b"\xa0", b"\x81\x9f\xff"]
+        for a in inners:
+            docs += [list(b"\x82" + a + b"\x01"), list(b"\x82\x01" + a), list(b"\x83" + a + a + b"\x01"), list(b"\x82\x82" + a + b"\x01\x02"),
+                     list(b"\xa2\x61\x61" + a + b"\x61\x62\x02"), list(b"\xa2\x61\x61\x01\x61\x62" + a), list(b"\x9f" + a + b"\x82" + a + b"\x01\xff"),
+                     list(b"\xbf\x61\x61\x82" + a + b"\x02\x61\x62" + a + b"\xff")]
     if fmt == "ubjson":
         # a typed container followed by counted / plain containers of other content (whatever the typed header left behind)
         pays = dict(i=b"\x05", U=b"\x05", I=b"\x01\x02", l=b"\x00\x00\x01\x02", L=b"\x00" * 7 + b"\x09", d=b"\x3f\x80\x00\x00",
@@ -183,6 +192,35 @@ def sweep_docs(fmt, quick):
     return docs
 
 
+def token_pair_docs(fmt):
+    """Adjacent tokens: whatever state a token leaves behind at a cut meets every kind of next token; JSON texts with
+    insignificant white space at every place the grammar allows it (incl. two that are invalid)."""
+    extra = []
+    if fmt == "json":
+        toks = [b'""', b'"a"', b'"\\n"', b'"a\\\\"', b'"\\"q"', b'"\\u00e9"', "\"é\"".encode(), b'"\\\\\\""']
+        vals = [b"1", b'"v"', b"-2.5e1", b"true", b"[]"]
+        for i, k1 in enumerate(toks):
+            for j, k2 in enumerate(toks):
+                v1, v2 = vals[(i + j) % 5], vals[(i + 2 * j + 1) % 5]
+                extra.append(list(b"{" + k1 + b":" + v1 + b"," + k2 + b":" + v2 + b"}"))
+                extra.append(list(b"[" + k1 + b"," + k2 + b"," + v1 + b"]"))
+                if (i + j) % 3 == 0:
+                    extra.append(list(b"[" + v1 + b"," + k1 + b",{" + k2 + b":" + k1 + b"}]"))
+        for w in (b" ", b"\n", b"\t\r ", b"  "):
+            extra += [list(t) for t in (b"[1," + w + b"2]", b'{"a":' + w + b"1}", b"[" + w + b"1" + w + b"," + w + b"2" + w + b"]",
+                                        b"{" + w + b'"a"' + w + b":" + w + b"[" + w + b"]" + w + b"," + w + b'"b":' + w + b"null}",
+                                        b"[1," + w + b"]", b'{"a":' + w + b"}", w + b"true" + w, b"[[" + w + b"]," + w + b"{" + w + b"}]")]
+    else:
+        ks = ["", "a", "ab", "é"]
+        vs = ["", "x", "yz", [], {}, ["q"]]
+        for i, k1 in enumerate(ks):
+            for j, k2 in enumerate(ks):
+                if k1 != k2:
+                    extra.append(enc_doc(fmt, {k1: vs[(i + j) % 6], k2: vs[(i + 2 * j + 1) % 6]}))
+                extra.append(enc_doc(fmt, [k1, k2, {k2: k1}]))
+    return extra
+
+
 def conformance_cases(ctx, prop, fmt, rows):
     """Every document through the one-shot Parse and through one more entry point (rotating): the value a parser
     reports must be the reference value whichever way the bytes arrive."""
@@ -204,6 +242,12 @@ def conformance_cases(ctx, prop, fmt, rows):
         cases.append(case(prop, "parse", fmt, doc=doc, origin="deep nesting"))
         e = other[n % 4]
         cases.append(case(prop, "parse", fmt, doc=doc, entry=e, origin="deep nesting via " + e, **sched_variants(ctx, doc, e, rnd)))
+    for n, doc in enumerate(token_pair_docs(fmt)):
+        cases.append(case(prop, "parse", fmt, doc=doc, origin="adjacent tokens"))
+        for cut in range(1, len(doc)):
+            e = ("write", "reader", "decreader")[(n + cut) % 3]
+            kw = dict(cuts=[cut]) if e != "decreader" else dict(buf=64, plan=[cut, len(doc)], eofwith=cut % 2 == 0)
+            cases.append(case(prop, "parse", fmt, doc=doc, entry=e, origin="adjacent tokens, one cut", **kw))
     for n, doc in enumerate(sweep_docs(fmt, ctx.quick)):
         cases.append(case(prop, "parse", fmt, doc=doc, origin="length sweep"))
         e = other[n % 4]
@@ -482,25 +526,7 @@ def c02(ctx):
         for L in (62, 63, 64, 65, 66, 130):
             extra.append(enc_doc(fmt, {"k" * L: "v" * L}))
             extra.append(enc_doc(fmt, ["e\\n" + "s" * L, "t" * L]))
-        # adjacent tokens: whatever state a token leaves behind at a cut meets every kind of next token
-        if fmt == "json":
-            toks = [b'""', b'"a"', b'"\\n"', b'"a\\\\"', b'"\\"q"', b'"\\u00e9"', "\"é\"".encode(), b'"\\\\\\""']
-            vals = [b"1", b'"v"', b"-2.5e1", b"true", b"[]"]
-            for i, k1 in enumerate(toks):
-                for j, k2 in enumerate(toks):
-                    v1, v2 = vals[(i + j) % 5], vals[(i + 2 * j + 1) % 5]
-                    extra.append(list(b"{" + k1 + b":" + v1 + b"," + k2 + b":" + v2 + b"}"))
-                    extra.append(list(b"[" + k1 + b"," + k2 + b"," + v1 + b"]"))
-                    if (i + j) % 3 == 0:
-                        extra.append(list(b"[" + v1 + b"," + k1 + b",{" + k2 + b":" + k1 + b"}]"))
-        else:
-            ks = ["", "a", "ab", "é"]
-            vs = ["", "x", "yz", [], {}, ["q"]]
-            for i, k1 in enumerate(ks):
-                for j, k2 in enumerate(ks):
-                    if k1 != k2:
-                        extra.append(enc_doc(fmt, {k1: vs[(i + j) % 6], k2: vs[(i + 2 * j + 1) % 6]}))
-                    extra.append(enc_doc(fmt, [k1, k2, {k2: k1}]))
+        extra += token_pair_docs(fmt)
         for doc in extra:
             n = len(doc)
             cl = [[i] for i in range(1, n)] + [sorted(rnd.sample(range(1, n), 2)) for _ in range(150 if ctx.quick else 800) if n > 2]
@@ -595,6 +621,7 @@ def c08(ctx):
             for j, p in enumerate(parts):
                 d += p + (sep if rnd.random() < 0.5 else [])
             docs.append(d)
+        docs += deep_docs(src)              # nesting beyond the pre-allocated stacks, with and without element counts
         docs += sweep_docs(src, True)       # strings/names of every length 0..71 (+boundaries), marker-valued lengths and payloads, 64-bit literals
         for doc in docs:
             for tgt in ("json", "ubjson", "cborl"):
@@ -639,6 +666,16 @@ def c10(ctx):
             for cons in ("json", "ubjson", "cborl", "plain", "unfold"):
                 opts = dict(ALL_OPTS[n % 8]) if cons == "json" else dict(OPTS0)
                 cases.append(case("C10", "extcmp", cons if cons not in ("plain", "unfold") else "json", stream=st, opts=opts, sub=dict(consumer=cons), origin="GenEvents"))
+                n += 1
+    # lengths and counts tied to internal constants: by-reference texts of every length 0..71, byte arrays, and every family of
+    # typed array / map with 127..257 elements
+    for st in streams.length_sweep(ctx.quick):
+        if any(e["k"] in ("xarr", "xobj") or e["ty"] in ("strref", "keyref") for e in st):
+            for cons in ("json", "ubjson", "cborl", "unfold"):
+                if cons == "unfold" and len(st) > 4:
+                    continue
+                cases.append(case("C10", "extcmp", cons if cons != "unfold" else "json", stream=st, opts=dict(ALL_OPTS[n % 8]) if cons == "json" else dict(OPTS0),
+                                  sub=dict(consumer=cons), origin="length / count sweep"))
                 n += 1
     number(cases)
     tf, st = core.run_harness(ctx, cases)
@@ -771,6 +808,13 @@ def c18(ctx):
             if fmt == "json" and not is_container_doc("json", other):
                 other = other + [0x20]
             streams_.append([ld + other, other + ld + ld, ld][j % 3])
+        for j, pd in enumerate(token_pair_docs(fmt)):
+            if fmt == "json" and not is_container_doc("json", pd):
+                continue
+            d = pd + (short[j % len(short)] if short and fmt != "json" else []) + pd[: 0 if j % 2 else len(pd)]
+            cases.append(case("C18", "parse", fmt, doc=d, entry="decbytes", origin="adjacent tokens"))
+            for cut in range(1, len(d)):
+                cases.append(case("C18", "parse", fmt, doc=d, entry="decreader", plan=[cut, len(d)], buf=max(64, len(d)), eofwith=(cut + j) % 2 == 0, origin="adjacent tokens, one split"))
         for d in streams_:
             n = len(d)
             cases.append(case("C18", "parse", fmt, doc=d, entry="decbytes", origin="stream"))
@@ -923,6 +967,20 @@ def c17(ctx):
                 if npairs % 3 == 0:      # ... the documents arriving through a codec (names by reference), key cache on
                     cases.append(case("C17", "goreuse", "go", sub=dict(component="unfolder", history=[a], T=b["T"], V=b["V"], via=("json", "ubjson", "cborl")[npairs % 9 // 3],
                                                                         keycache=1 + npairs % 2), origin="unfolder history via codec, key cache"))
+    # a type with a user-defined processing unfolder whose cell is the target itself, met directly and below other types
+    US = dict(k="named", id="USelf")
+
+    def usv(x):
+        return dict(k="struct", f=[dict(k="int", ty="int64", v=streams.canon(x))])
+    uprogs = [dict(T=US, V=usv(3)), dict(T=dict(k="ptr", e=[US]), V=dict(k="ptr", e=[usv(4)])), dict(T=dict(k="slice", e=[US]), V=dict(k="slice", e=[usv(1), usv(2)])),
+              dict(T=dict(k="struct", f=[dict(name="T", tname="", opts=[], t=dict(k="ptr", e=[US])), dict(name="N", tname="", opts=[], t=dict(k="int"))]),
+                   V=dict(k="struct", f=[dict(k="ptr", e=[usv(5)]), dict(k="int", ty="int", v=streams.canon(1))])),
+              dict(T=dict(k="map", e=[US]), V=dict(k="map", m=[dict(key=list(b"k"), val=usv(6))]))]
+    for a in uprogs:
+        for b in uprogs:
+            for via in ("", "json"):
+                cases.append(case("C17", "goreuse", "go", sub=dict(component="unfolder", history=[a], T=b["T"], V=b["V"], via=via), origin="unfolder history, user-defined processing unfolder"))
+            cases.append(case("C17", "goreuse", "go", sub=dict(component="unfolder", history=[a, b], T=a["T"], V=a["V"]), origin="unfolder history, user-defined processing unfolder"))
     # member names recurring across the documents one unfolder sees, with the key cache smaller than / as large as the name set
     def I(x):
         return dict(k="int", ty="int", v=streams.canon(x))
@@ -1167,6 +1225,19 @@ def c13(ctx):
             return [streams.ev("objS", "objS", (), 1 if d % 3 else -1, "any"), streams.ev("key", "keyref" if d % 2 else "key", list(b"k%d" % d))] + chain(d - 1, kind) + [streams.ev("objE", "objE")]
         return [streams.ev("arrS", "arrS", (), 1 if d % 3 else -1, "any")] + chain(d - 1, kind) + [streams.ev("arrE", "arrE")]
     S1T = dict(k="struct", f=[dict(name="I", tname="", opts=[], t=dict(k="iface")), dict(name="N", tname="", opts=[], t=dict(k="int"))])
+
+    def chain2(d, kind, ann):
+        """like chain, with every length unknown (ann = False) or announced (ann = True), and a sibling after every nested value"""
+        if d == 0:
+            return [streams.ev("int", "int8", streams.canon(7))]
+        if kind == "obj" or (kind == "mix" and d % 2):
+            return [streams.ev("objS", "objS", (), 2 if ann else -1, "any"), streams.ev("key", "keyref", list(b"k%d" % d))] + chain2(d - 1, kind, ann) + \
+                   [streams.ev("key", "key", list(b"s")), streams.ev("int", "int8", streams.canon(d)), streams.ev("objE", "objE")]
+        return [streams.ev("arrS", "arrS", (), 2 if ann else -1, "any")] + chain2(d - 1, kind, ann) + [streams.ev("int", "int8", streams.canon(d)), streams.ev("arrE", "arrE")]
+    for d in range(1, 11):
+        for kind in ("obj", "arr", "mix"):
+            for ann in (False, True):
+                cases.append(case("C13", "unfold", "go", stream=chain2(d, kind, ann), sub=dict(T=dict(k="iface"), V0=gotypes.zero_vd(dict(k="iface"))), origin="deep %s %d, lengths %s" % (kind, d, "announced" if ann else "unknown")))
     for d in range(1, 11):
         for kind in ("obj", "arr", "mix"):
             st = chain(d, kind)
@@ -1202,6 +1273,11 @@ def c13(ctx):
                            streams.ev("key", "keyref", list(names[(h + 1) % 6])), streams.ev("int", "int8", streams.canon(-j - 1)), streams.ev("objE", "objE")]
                 st.append(streams.ev("objE" if outer_map else "arrE", "objE" if outer_map else "arrE"))
                 cases.append(case("C13", "unfold", "go", stream=st, sub=dict(T=T, V0=gotypes.zero_vd(T), keycache=cap), origin="recurring member names, key cache %d" % cap))
+    # every other case: all by-reference texts come out of ONE scratch buffer (a parser's internal buffer), so the next
+    # text of the same length lands on the same bytes; otherwise each has its own buffer that is overwritten after the callback
+    for n, c in enumerate(cases):
+        if n % 2:
+            c["sub"]["sharedref"] = True
     number(cases)
     tf, st = core.run_harness(ctx, cases)
     failed, nv = core.tlc_validate(ctx, "TraceCodec", tf)
@@ -1244,6 +1320,8 @@ def c20(ctx):
                   ("json", "int"), ("cborl", "struct"), ("ubjson", "ifc")]
         for fmt, target in ([combos[n % 9]] if ctx.quick else [combos[n % 9], combos[(n + 4) % 9], combos[(n + 7) % 9]]):
             cases.append(case("C20", "keycache", fmt, sub=dict(cap=r["cap"], hist=r["hist"], target=target, model_lru=r["lru"], sharedbuf=(n // 9) % 2 == 1), origin="SFKeyCache"))
+            if n % 7 == 0 and 0 in r["hist"]:    # the cache configured again between two documents (diagnostic LRU order not compared then)
+                cases.append(case("C20", "keycache", fmt, sub=dict(cap=r["cap"], hist=r["hist"], target=target, model_lru=[], sharedbuf=n % 2 == 0, reenable=True), origin="SFKeyCache, EnableKeyCache again"))
     number(cases)
     tf, st = core.run_harness(ctx, cases)
     failed, nv = core.tlc_validate(ctx, "TraceCodec", tf)
@@ -1286,7 +1364,8 @@ def c14(ctx):
             seen.add(k)
             types.append(r["T"])
     rnd.shuffle(types)
-    types = types[: 500 if ctx.quick else 3000] + gotypes.user_types()      # ... and targets with user-defined unfolders
+    generic = [dict(k="iface"), dict(k="slice", e=[dict(k="iface")]), dict(k="map", e=[dict(k="iface")])]        # always among the targets
+    types = generic + [T for T in types if T.get("k") != "iface"][: 500 if ctx.quick else 3000] + gotypes.user_types()      # ... and targets with user-defined unfolders
     others = list(types)
     cases = []
     for n, T in enumerate(types):
@@ -1318,6 +1397,21 @@ def c14(ctx):
         if ctx.quick:
             variants = variants[:3] + rnd.sample(variants[3:], 4)
         variants += nullv
+        if T["k"] == "iface" or (T["k"] in ("slice", "map") and T["e"][0]["k"] == "iface"):
+            # scratch buffers of the generic unfolders grow with the nesting depth and are kept by Reset: a reused unfolder
+            # must give what a new one gives, also for documents nested deeper than the initial capacities
+            def nest(d, open_only=False):
+                st = [streams.ev("arrS", "arrS", (), -1, "any")]
+                for j in range(d):
+                    st += [streams.ev("int", "int8", streams.canon(j)), streams.ev("arrS", "arrS", (), -1, "any")]
+                return st if open_only else st + [streams.ev("arrE", "arrE")] * (d + 1)
+            wrap = (lambda st: st) if T["k"] == "iface" else ((lambda st: [streams.ev("arrS", "arrS", (), -1, "any")] + st + [streams.ev("arrE", "arrE")]) if T["k"] == "slice"
+                    else (lambda st: [streams.ev("objS", "objS", (), -1, "any"), streams.ev("key", "key", list(b"k"))] + st + [streams.ev("objE", "objE")]))
+            for d in (3, 4, 5, 6, 9):
+                variants.append((wrap(nest(d)), None))
+                follow_deep = wrap(nest(d + 1))
+                cases.append(case("C14", "unfoldx", "go", stream=wrap(nest(d)), sub=dict(T=T, abandon=len(wrap(nest(d))), follow=follow_deep), origin="deep arrays, reused"))
+                cases.append(case("C14", "unfoldx", "go", stream=wrap(nest(8)), sub=dict(T=T, abandon=2 + 2 * d, follow=follow_deep), origin="deep arrays abandoned, reused"))
         for st, lenexp in variants:
             cuts = sorted(set([len(st)] + [rnd.randint(0, len(st)) for _ in range(2 if (st, lenexp) not in nullv else 0)]))
             for k in cuts:
@@ -1397,6 +1491,8 @@ def c15(ctx):
                 sub = dict(target=target, follow=follow, gc=(j == 2))
                 if (n + j) % 4 == 0:
                     sub["keycache"] = rnd.choice([0, 1, 2, 8])
+                if (n + j) % 5 == 0:
+                    sub["prestr"] = True      # the same parser was used through ParseString (immutable input) before
                 cases.append(case("C15", "alias", fmt, doc=doc, cuts=cuts, sub=sub, origin="alias doc %d" % n))
             # maps whose elements are handled via reflection keep the key until the element is complete
             ms = {"k\\/1": [S(), S()], "k2" + S()[:2]: [S()], "e\n": []}
